@@ -472,8 +472,11 @@ func queueModel() porcupine.Model {
 	}
 }
 
+// concSize varies per history so that some histories wrap and grow the 2048-byte ring while readers run.
+var concSize = 97
+
 func idPayload(id int) []byte {
-	b := fillBytes(3+id%97, uint32(id))
+	b := fillBytes(3+(id*131)%concSize, uint32(id))
 	b[0], b[1], b[2] = byte(id), byte(id>>8), 0xEE
 	return b
 }
@@ -484,6 +487,7 @@ func tick() int64 { return atomic.AddInt64(&clock, 1) }
 
 func concHistory(rng *rand.Rand, r *res.Result) (ops []porcupine.Operation, corrupt string) {
 	b := packetio.NewBuffer()
+	concSize = []int{97, 97, 700, 1500}[rng.Intn(4)]
 	W := 1 + rng.Intn(3)
 	R := 1 + rng.Intn(3)
 	perW := 2 + rng.Intn(5)
@@ -533,7 +537,7 @@ func concHistory(rng *rand.Rand, r *res.Result) (ops []porcupine.Operation, corr
 		go func(q int) {
 			defer rwg.Done()
 			lr := rand.New(rand.NewSource(seeds[W+q]))
-			dst := make([]byte, 200)
+			dst := make([]byte, 2000)
 			for {
 				spin(lr.Intn(4))
 				t0 := tick()
